@@ -146,8 +146,9 @@ impl<Q: BrokerQuote, O: BrokerOrder, B: StaticWeightBroker<Q, O>> StaticWeightSt
 
     fn deposit_cash(&mut self, cash: &f64) -> StrategyEvent {
         info!("STRATEGY: Depositing {:?} into strategy", cash);
-        self.brkr.deposit_cash(cash);
-        self.net_cash_flow += self.net_cash_flow;
+        if let BrokerCashEvent::DepositSuccess(deposited) = self.brkr.deposit_cash(cash) {
+            self.net_cash_flow += deposited;
+        }
         StrategyEvent::DepositSuccess(*cash)
     }
 
